@@ -31,6 +31,7 @@ type Step struct {
 	Who     string
 	Ev      string
 	Enabled []string
+	Evs     []string // the event each enabled goroutine is parked at
 }
 
 type Sched struct {
@@ -193,8 +194,14 @@ func (s *Sched) allDone() bool {
 func (s *Sched) resume(name string, en []string) {
 	s.mu.Lock()
 	p := s.parked[name]
+	evs := make([]string, len(en))
+	for i, n := range en {
+		if q := s.parked[n]; q != nil {
+			evs[i] = q.ev
+		}
+	}
 	delete(s.parked, name)
-	s.Trace = append(s.Trace, Step{Who: name, Ev: p.ev, Enabled: en})
+	s.Trace = append(s.Trace, Step{Who: name, Ev: p.ev, Enabled: en, Evs: evs})
 	s.mu.Unlock()
 	p.resume <- struct{}{}
 }
